@@ -14,6 +14,8 @@ sample = base.dispatch_sample
 def make(family, rng, tier):
     if family == "ex":
         return exgen.gen(rng, PROP, tier)
+    if family == "storm":
+        return exgen.gen_storm(rng, PROP, tier)
     if family == "chaos":
         scn = sysgen.gen_chaos(rng, tier)
         scn["oracles"] = ["model"]
@@ -31,4 +33,4 @@ def make(family, rng, tier):
 def plan(tier):
     q = tier == "quick"
     return [("ex", 3000 if q else 50000), ("sys", 2000 if q else 40000), ("sysmodel", 1500 if q else 30000),
-            ("chaos", 1000 if q else 20000)]
+            ("chaos", 1000 if q else 20000), ("storm", 6 if q else 100)]
